@@ -157,6 +157,13 @@ def main(argv):
             print('%-36s %-7s %s' % (mid, st, det))
             rc = max(rc, 2 if st == 'BROKEN' else 1)
     nok = sum(1 for r in results if r[1] == 'ok')
+    outp = os.environ.get('LCVERIF_SELFTEST_OUT')
+    if outp:
+        with open(outp, 'w') as fh:
+            json.dump({'expectations': len(results), 'met': nok,
+                       'must_fire': [r[0] for r in results if any(m['id'] == r[0] for m in cat['fire']) and (not props or any(pp in props for pp in next(m for m in cat['fire'] if m['id'] == r[0])['checks']))],
+                       'must_stay_silent': [r[0] for r in results if any(m['id'] == r[0] for m in cat['silent'])],
+                       'failed': [list(r) for r in results if r[1] != 'ok']}, fh)
     print('selftest: %d/%d expectations met (%d must-fire, %d must-stay-silent)' % (
         nok, len(results), len([m for m in cat['fire'] if not only or m['id'] in only]), len([m for m in cat['silent'] if not only or m['id'] in only])))
     return rc
